@@ -117,14 +117,18 @@ abbrev Swaps := List (String × Charge)
 
 def validAxes : List String := ["b0", "b1", "b2", "b3", "b4", "k0", "k1", "k2", "k3", "k4"]
 
-/-- one iteration of the loop body for a valid axis:
-`t = swaps.pop(ax, None); t = add_charges(t, charge) if t is not None else charge; if t != zero: swaps[ax] = t` -/
+/-- `t = swaps.pop(ax, None); t = add_charges(t, charge) if t is not None else charge` -/
+def newCharge (ms : List Nat) (sw : Swaps) (ax : String) (ch : Charge) : Charge :=
+  match sw.lookup ax with
+  | some t => addMod ms t ch
+  | none => ch
+
+/-- one iteration of the loop body for a valid axis: pop the entry, `if t != zero: swaps[ax] = t`
+(re-inserted at the end of the dict) -/
 def addOne (ms : List Nat) (sw : Swaps) (ax : String) (ch : Charge) : Swaps :=
-  let t := match sw.lookup ax with
-    | some t => addMod ms t ch
-    | none => ch
-  let sw' := sw.filter (fun e => e.1 != ax)
-  if t != zeroCharge ms then sw' ++ [(ax, t)] else sw'
+  if newCharge ms sw ax ch != zeroCharge ms then
+    sw.filter (fun e => e.1 != ax) ++ [(ax, newCharge ms sw ax ch)]
+  else sw.filter (fun e => e.1 != ax)
 
 /-- `add_charge_swaps_(charge, axes)`; the flag is `true` when `YastnError` is raised (the entries written before the
 offending axis stay written, as in the source) -/
